@@ -14,7 +14,7 @@ definition to the environment `envOf base g` whose field of key `j` is the value
 whose non-key fields (kappa, Lambda, the abstract operator D, sqrt/log/exp/abs, coordinates) come from `base`.
 
 Keys that cannot be mapped (no traced alternative: Weyl_Psi, Psi4_lm, Weyl_invariants; tuple-valued: dtconserved; the
-256-component keys of the `Big` group, to keep compile time low) are left to the parameter `rest` of `leafGen`, i.e.
+256-component keys of the `Big` group other than those of EXTRA_GROUPS = st_Riemann_down4, to keep compile time low) are left to the parameter `rest` of `leafGen`, i.e.
 their return-site formulas are ARBITRARY in every theorem stated over this table.
 """
 import os
@@ -29,6 +29,9 @@ PROJ = {"s": "toS", "v3": "toV3", "t33": "toT33", "t333": "toT333", "t3333": "to
 BASE_FIELDS = ["kappa", "Lambda", "coord_x", "coord_y", "coord_z", "D", "sqrtF", "logF", "expF", "absF", "rpowF"]
 FALSE_FLAGS = {"np.shape(f)[i] != dim[s_or_st]"}
 GROUPS = ("Keys", "Curv")
+# 256-component keys whose return sites ARE generated (extension round 6): group -> module to import.  The others of the
+# `Big` group stay with `rest` (compile time).
+EXTRA_GROUPS = {"Big_st_Riemann_down4": "AurelVerif.Gen.CoreBig_st_Riemann_down4"}
 
 
 def _ty(shape):
@@ -117,7 +120,8 @@ def site_map(info, index):
     """(key -> {site: (alt index entry, [read sequence])}), {key: reason not mapped}"""
     by_key = {}
     for i in index:
-        if i.get("status") == "ok" and i.get("group") in GROUPS and i["key"] in info["shapes"]:
+        if (i.get("status") == "ok" and (i.get("group") in GROUPS or i.get("group") in EXTRA_GROUPS)
+                and i["key"] in info["shapes"]):
             by_key.setdefault(i["key"], []).append(i)
     out, skipped = {}, {}
     for k, sh in info["shapes"].items():
@@ -160,7 +164,8 @@ def generate(info, index, shapes):
     smap, skipped = site_map(info, index)
     o = ["-- GENERATED by tools/py2lean/c01table.py from Gen/DepGraph (AST of core.py) and the traced alternatives of",
          "-- Gen/CoreKeys, Gen/CoreCurv (symbolic execution of core.py) — do not edit.",
-         "import AurelVerif.Gen.CoreKeys", "import AurelVerif.Gen.CoreCurv",
+         "import AurelVerif.Gen.CoreKeys", "import AurelVerif.Gen.CoreCurv"] + [
+         "import " + m for m in sorted(EXTRA_GROUPS.values())] + [
          "set_option linter.unusedVariables false", "set_option maxRecDepth 100000",
          "namespace AurelVerif.Gen.C01Table", "open AurelVerif.Gen.Core AurelVerif.Tensor", "",
          "/-- a cached value at one grid point -/", "inductive Val (K : Type)"]
